@@ -4,7 +4,7 @@ Driver for C17. Trace lines of one case (harness/cmd/verifharness/c17.go):
   cfg <d> <p> <stripe>
   content <hex>                 the part A; the other part B = A with every byte xor 0x5a
   orig <k> <len> <sha256>       what PutPart really wrote to shard store k
-  fault <k> missing | trunc <n> | xor <off> <mask> | set <off> <hex> | foreign | append <hex>
+  fault <k> missing | trunc <n> | xor <off> <mask> | set <off> <hex> | foreign | misplaced <j> | append <hex>
   tx <0|1>
   read  <ok|err|nf> <bytes>     "=" = A, "=other" = B, "<n" = the first n bytes of A, else hex
   after <k> orig|absent|same|other <hex>
@@ -35,6 +35,7 @@ def parseFault (ts : List String) : Option Fault :=
   match ts with
   | ["fault", k, "missing"] => some { k := k.toNat!, kind := "missing" }
   | ["fault", k, "foreign"] => some { k := k.toNat!, kind := "foreign" }
+  | ["fault", k, "misplaced", j] => some { k := k.toNat!, kind := "misplaced", a := j.toNat! }
   | ["fault", k, "trunc", n] => some { k := k.toNat!, kind := "trunc", a := n.toNat! }
   | ["fault", k, "xor", o, m] => some { k := k.toNat!, kind := "xor", a := o.toNat!, b := m.toNat! }
   | ["fault", k, "set", o, h] => (unhex h).map fun d => { k := k.toNat!, kind := "set", a := o.toNat!, data := d }
@@ -45,11 +46,12 @@ def setAt (bs : Bytes) (off : Nat) (d : Bytes) : Bytes :=
   (List.zip (List.range bs.length) bs).map fun (i, x) => if off ≤ i && i < off + d.length then d.getD (i - off) x else x
 
 /-- the harness's fault application, on the model's shard streams -/
-def applyFault (foreign : List Bytes) (st : List (Option Bytes)) (f : Fault) : List (Option Bytes) :=
+def applyFault (foreign orig : List Bytes) (st : List (Option Bytes)) (f : Fault) : List (Option Bytes) :=
   (List.zip (List.range st.length) st).map fun (k, s) =>
     if k != f.k then s else
     match f.kind, s with
     | "foreign", _ => some (foreign.getD k [])
+    | "misplaced", _ => some (orig.getD f.a [])
     | _, none => none
     | "missing", _ => none
     | "trunc", some bs => some (bs.take f.a)
@@ -120,7 +122,7 @@ def judgeCase (_k : Nat) (lines : List String) : Verdict := Id.run do
   let fixTok := (toks.find? (·.head? == some "fixes")).getD []
   let fx : Fix := { notFoundWhenAllMissing := fixTok.contains "ec=1", healParity := fixTok.contains "parity=1",
                     endWhenEnoughEnded := fixTok.contains "trail=1", failWhenTooFewOpen := fixTok.contains "fewopen=1" }
-  let faulted := faults.foldl (applyFault origB) (origA.map some)
+  let faulted := faults.foldl (applyFault origB origA) (origA.map some)
   -- the model's healing read
   let decode (t : List String) : Option (String × Bytes) :=
     match t with
@@ -171,26 +173,31 @@ def judgeCase (_k : Nat) (lines : List String) : Verdict := Id.run do
   let hasDb := faults.any (fun f => touchesOnlyDataBytes lay f)
   let hasForeign := faults.any (·.kind == "foreign")
   let hasTrailer := faults.any (·.kind == "append")
+  let hasMisplaced := faults.any (·.kind == "misplaced")
   let allDamaged := faultyShards.length == n
   let few := faultyShards.length ≤ c.p
   -- signatures: the kind of violation, narrowed by the one unhandled fault kind that explains it (if any)
-  let judgeRead (tag : String) (r : String × Bytes) : List (String × String) :=
+  -- (`.every-shard-damaged` names the known defect — the stream ends cleanly where no shard shows a frame
+  -- header any more — only when the model of that defect yields the same short read; a short read it does
+  -- not explain keeps the bare signature)
+  let judgeRead (tag : String) (r m : String × Bytes) : List (String × String) :=
     if r.1 == "ok" && r.2 == A then [] else
     if r.1 == "ok" then
       let trunc := r.2.length < A.length && r.2 == A.take r.2.length
       let sig :=
         if trunc then
           "C17.read-returned-truncated-part-without-error" ++
-            (if allDamaged then ".every-shard-damaged" else if hasDb then ".frame-databytes-altered" else "")
+            (if allDamaged && m == r then ".every-shard-damaged" else if hasDb then ".frame-databytes-altered" else "")
         else
           "C17.read-returned-different-bytes" ++
-            (if hasDb then ".frame-databytes-altered" else if hasForeign then ".foreign-shard" else "")
+            (if hasDb then ".frame-databytes-altered" else if hasForeign then ".foreign-shard"
+             else if hasMisplaced then ".misplaced-shard" else "")
       [(sig, s!"{tag}:{faultyShards.length}-faulty-of-{n},p={c.p}:returned-{r.2.length}-bytes-instead-of-{A.length}")]
     else if few then
       [("C17.read-failed-with-at-most-parity-faults" ++ (if hasTrailer then ".trailing-bytes" else ""),
         s!"{tag}:{faultyShards.length}-faulty-of-{n},p={c.p}:{r.1}")]
     else []
-  vio := vio ++ judgeRead "read" i1 ++ judgeRead "read2" i2
+  vio := vio ++ judgeRead "read" i1 m1 ++ judgeRead "read2" i2 m2
   if few && i1.1 == "ok" && !restoredBad.isEmpty then
     let par := restoredBad.all (· ≥ c.d)
     let sig := "C17.missing-shard-not-restored" ++
